@@ -100,7 +100,8 @@ THEOREMS = {
             "Iauthd.Conf.Cex.f16_pinned_null_host", "Iauthd.Conf.Cex.f16_fixed_default_host",
             "Iauthd.Conf.Cex.f27_pinned_pointer_bits", "Iauthd.Conf.Cex.f27_fixed_zero"],
     "C16": ["Iauthd.Conf.string_roundtrip", "Iauthd.Conf.scan_roundtrip", "Iauthd.Conf.decodeQ_of_scanQ",
-            "Iauthd.Conf.gapAny_ok", "Iauthd.Conf.gapFlat_ok", "Iauthd.Conf.parseString_at", "Iauthd.Conf.parenLoop_at",
+            "Iauthd.Conf.gapAny_ok", "Iauthd.Conf.gapFlat_ok", "Iauthd.Conf.gapOK_block", "Iauthd.Conf.gapOK_line", "Iauthd.Conf.renderPieces_care",
+            "Iauthd.Conf.Spec.decodeGap_gapOfPieces", "Iauthd.Properties.C16_all_gaps", "Iauthd.Conf.parseString_at", "Iauthd.Conf.parenLoop_at",
             "Iauthd.Conf.rt_entry", "Iauthd.Conf.rt_entries", "Iauthd.Conf.rt_top", "Iauthd.Conf.parse_rendered",
             "Iauthd.Conf.bridge_ents", "Iauthd.Conf.renderEntries_noNul", "Iauthd.Conf.pfold_canonTree",
             "Iauthd.Conf.C16_partial",
@@ -267,8 +268,48 @@ def rand_doc(rng, depth, names, max_entries):
     return out
 
 
+# general gaps (Spec.decodeGap): pieces -> one tape element `[N]`
+COMMENT_BODIES = [b"", b"*", b"**", b"***", b" * ", b"/", b"//", b"/*", b"/* /", b"* /", b"a*b", b"x\ny", b"\n*", b"\"", b"\\", b"{};,()",
+                  b"\t\r", b"*\n*", b"a /* nested", b"\xff\x80", b"ends with star *", b"* starts", b"/ * /", b"*/"]
+LINE_TEXTS = [b"", b" x", b"/", b"//", b"/*", b"*/", b"a{b;c}", b"\"", b"\\", b"\r", b"\t \xfe", b"\n"]
+WS_BYTES = [32, 32, 9, 11, 12, 13, 10, 0, 65]
+
+
+def gap_number(pieces):
+    """encode [('ws', byte) | ('nl',) | ('block', body) | ('line', text)] as Spec.gapOfPieces does"""
+    out = bytearray()
+    for p in pieces:
+        if p[0] == "ws":
+            out += bytes([0, p[1]])
+        elif p[0] == "nl":
+            out.append(1)
+        else:
+            out.append(2 if p[0] == "block" else 3)
+            out += p[1].replace(b"\x00", b"") + b"\x00"
+    return 36 + int.from_bytes(bytes(out) + b"\x01", "little")
+
+
+def rand_gap(rng):
+    pieces = []
+    for _ in range(rng.choice([1, 1, 2, 3, 5])):
+        k = rng.random()
+        if k < 0.3:
+            pieces.append(("ws", rng.choice(WS_BYTES)))
+        elif k < 0.4:
+            pieces.append(("nl",))
+        elif k < 0.8:
+            body = rng.choice(COMMENT_BODIES) if rng.random() < 0.7 else bytes(rng.choice(b"*/ a\n") for _ in range(rng.randint(0, 8)))
+            pieces.append(("block", body))
+        else:
+            pieces.append(("line", rng.choice(LINE_TEXTS)))
+    return "[%d]" % gap_number(pieces)
+
+
 def rand_tape(rng, n=160, style=None):
-    style = style or rng.choice(["wild", "wild", "terse", "quoted", "noterm"])
+    style = style or rng.choice(["wild", "wild", "terse", "quoted", "noterm", "gaps", "gaps"])
+    if style == "gaps":
+        # small choices everywhere, general gaps sprinkled over them
+        return "".join(rand_gap(rng) if rng.random() < 0.35 else rng.choice(TAPE_CHARS[:10]) for _ in range(n))
     if style == "terse":
         return "".join(rng.choice("00001") for _ in range(n))
     if style == "quoted":
@@ -741,7 +782,7 @@ def coverage(prop, tier, cases, impl, model, spec):
                  "C15": "random registration schemas (6 names x 4 kinds x depth <= 3, typed subtypes) registered before / between / after loads of "
                         "1-4 documents biased to the schema, repeated loads, direct hook installation; plus every length-3 sequence over hand-picked "
                         "files with registration before or after; non-trivial = a case with a successful load",
-                 "C16": "random documents (depth <= 3, <= 6 entries, all byte values except NUL) x random layout tapes, exhaustive choice windows over "
+                 "C16": "random documents (depth <= 3, <= 6 entries, all byte values except NUL) x random layout tapes (incl. general gaps: arbitrary runs of blanks, newlines, C comments with bodies such as '*', '**', '/*', C++ comments), exhaustive choice windows over "
                         "small documents, typed settings written in files, the typed parsers on pools and random texts; non-trivial = a case with an accepted file"}[prop],
         "samples": [c.lines[:6] for c in cases[:2]] + [c.lines[:6] for c in cases[-1:]],
         "op_histogram": ops, "read_results": rcs, "reads": reads, "reads_with_hooks": hooks_fired,
